@@ -79,6 +79,21 @@ Definition notify (n : notifier) (name : str) : list (nat * Z) :=
     end
   else [].
 
+(* delivery (NotifyWithData after the targets map is built): the targets are sorted by non-increasing priority (sort.Slice with
+   "greater"; an insertion sort here - Go's order among equal priorities is unspecified, so observables are compared up to ties) and
+   each is called inside notifyTarget, whose deferred errs.Recovery turns a panic of the target into one report to the recovery
+   handler; the loop goes on with the next target. Events: ECall t pr, then ERecovered t when target t panics. *)
+Fixpoint insert_desc (x : nat * Z) (l : list (nat * Z)) : list (nat * Z) :=
+  match l with [] => [x] | y :: r => if (snd y <? snd x)%Z then x :: l else y :: insert_desc x r end.
+Definition sort_desc (l : list (nat * Z)) : list (nat * Z) := fold_right insert_desc [] l.
+Inductive event := ECall (t : nat) (pr : Z) | ERecovered (t : nat).
+Definition notify_target (panics : nat -> bool) (p : nat * Z) : list event :=
+  if panics (fst p) then [ECall (fst p) (snd p); ERecovered (fst p)] else [ECall (fst p) (snd p)].
+Definition deliver (panics : nat -> bool) (n : notifier) (name : str) : list event :=
+  flat_map (notify_target panics) (sort_desc (notify n name)).
+Definition calls (ev : list event) : list (nat * Z) := flat_map (fun e => match e with ECall t pr => [(t, pr)] | _ => [] end) ev.
+Definition recovered (ev : list event) : list nat := flat_map (fun e => match e with ERecovered t => [t] | _ => [] end) ev.
+
 Definition start_batch (n : notifier) : notifier * list nat :=
   if enabled n then
     let lv := S (level n) in
